@@ -78,12 +78,8 @@ pub fn read_graphml_string(string: &str, specs: GraphSpecs) -> Result<Graph<Stri
                     }
                 }
                 b"key" => {
-                    let attrs = get_attributes_as_hashmap(e);
-                    if attrs.contains_key("attr.name")
-                        && attrs.get("attr.name").unwrap() == "weight"
-                        && attrs.get("for").unwrap() == "edge"
-                    {
-                        edge_weight_attr_name = attrs.get("id").unwrap().to_string();
+                    if let Some(id) = get_edge_weight_key_id(e)? {
+                        edge_weight_attr_name = id;
                     }
                 }
                 _ => (),
@@ -91,23 +87,7 @@ pub fn read_graphml_string(string: &str, specs: GraphSpecs) -> Result<Graph<Stri
             Ok(Event::Start(ref e)) => {
                 match e.name().as_ref() {
                     b"graph" => {
-                        let attrs = get_attributes_as_hashmap(e);
-                        match attrs.get("edgedefault") {
-                            None => {
-                                return Err(get_read_error("the <graph> element does not have an \"edgedefault\" attribute"));
-                            }
-                            Some(value) => match value.as_str() {
-                                "directed" => {
-                                    directed = true;
-                                }
-                                "undirected" => {
-                                    directed = false;
-                                }
-                                _ => {
-                                    return Err(get_read_error("the <graph> element's \"edgedefault\" attribute does not have a valid value; it should be one of \"directed\" or \"undirected\""));
-                                }
-                            },
-                        }
+                        directed = get_edge_default(e)?;
                     }
                     b"node" => {
                         last_element_name = "node".to_string();
@@ -124,31 +104,36 @@ pub fn read_graphml_string(string: &str, specs: GraphSpecs) -> Result<Graph<Stri
                         }
                     }
                     b"key" => {
-                        let attrs = get_attributes_as_hashmap(e);
-                        if attrs.contains_key("attr.name")
-                            && attrs.get("attr.name").unwrap() == "weight"
-                            && attrs.get("for").unwrap() == "edge"
-                        {
-                            edge_weight_attr_name = attrs.get("id").unwrap().to_string();
+                        if let Some(id) = get_edge_weight_key_id(e)? {
+                            edge_weight_attr_name = id;
                         }
                     }
                     b"data" => {
-                        let attrs = get_attributes_as_hashmap(e);
+                        let attrs = get_attributes_as_hashmap(e)?;
                         if attrs.contains_key("key") {
                             let key = attrs.get("key").unwrap();
                             if key == &edge_weight_attr_name {
                                 let mut buf = Vec::new();
                                 match reader.read_event_into(&mut buf) {
-                                    Ok(Event::Text(e)) => {
-                                        let weight = str::from_utf8(&e).unwrap();
-                                        match last_element_name.as_str() {
-                                            "edge" => {
-                                                let edge = Arc::make_mut(edges.last_mut().unwrap());
-                                                edge.weight = weight.parse::<f64>().unwrap();
+                                    Ok(Event::Text(e)) => match last_element_name.as_str() {
+                                        "edge" => {
+                                            let weight = match e.unescape() {
+                                                Ok(text) => text.parse::<f64>().ok(),
+                                                Err(_) => None,
+                                            };
+                                            match (weight, edges.last_mut()) {
+                                                (Some(weight), Some(edge)) => {
+                                                    Arc::make_mut(edge).weight = weight;
+                                                }
+                                                _ => {
+                                                    return Err(get_read_error(
+                                                        "an edge weight is not a valid number",
+                                                    ));
+                                                }
                                             }
-                                            _ => (),
                                         }
-                                    }
+                                        _ => (),
+                                    },
                                     _ => (),
                                 }
                             }
@@ -272,7 +257,7 @@ where
 }
 
 fn add_edge(edges: &mut Vec<Arc<Edge<String, ()>>>, e: &BytesStart) -> Result<(), Error> {
-    let attrs = get_attributes_as_hashmap(e);
+    let attrs = get_attributes_as_hashmap(e)?;
     if !attrs.contains_key("source") {
         return Err(get_read_error(
             "an <edge> element does not have a \"source\" attribute",
@@ -291,7 +276,7 @@ fn add_edge(edges: &mut Vec<Arc<Edge<String, ()>>>, e: &BytesStart) -> Result<()
 }
 
 fn add_node(nodes: &mut Vec<Arc<Node<String, ()>>>, e: &BytesStart) -> Result<(), Error> {
-    let attrs = get_attributes_as_hashmap(e);
+    let attrs = get_attributes_as_hashmap(e)?;
     match attrs.get("id") {
         None => Err(get_read_error(
             "a <node> element does not have an \"id\" attribute",
@@ -303,17 +288,50 @@ fn add_node(nodes: &mut Vec<Arc<Node<String, ()>>>, e: &BytesStart) -> Result<()
     }
 }
 
-fn get_attributes_as_hashmap(event: &BytesStart) -> HashMap<String, String> {
+fn get_attributes_as_hashmap(event: &BytesStart) -> Result<HashMap<String, String>, Error> {
     event
         .attributes()
         .map(|a| {
-            let attr = a.unwrap();
+            let attr = a.map_err(|e| get_read_error(format!("{}", e).as_str()))?;
             let key_vec = attr.key.local_name().as_ref().to_vec();
-            let key = String::from_utf8(key_vec).unwrap();
-            let value = attr.unescape_value().unwrap().into_owned();
-            (key, value)
+            let key =
+                String::from_utf8(key_vec).map_err(|e| get_read_error(format!("{}", e).as_str()))?;
+            let value = attr
+                .unescape_value()
+                .map_err(|e| get_read_error(format!("{}", e).as_str()))?
+                .into_owned();
+            Ok((key, value))
         })
         .collect()
+}
+
+// Returns the directedness declared by a <graph> element.
+fn get_edge_default(e: &BytesStart) -> Result<bool, Error> {
+    let attrs = get_attributes_as_hashmap(e)?;
+    match attrs.get("edgedefault") {
+        None => Err(get_read_error(
+            "the <graph> element does not have an \"edgedefault\" attribute",
+        )),
+        Some(value) => match value.as_str() {
+            "directed" => Ok(true),
+            "undirected" => Ok(false),
+            _ => Err(get_read_error("the <graph> element's \"edgedefault\" attribute does not have a valid value; it should be one of \"directed\" or \"undirected\"")),
+        },
+    }
+}
+
+// Returns the id of a <key> element if it declares the edge weight attribute.
+fn get_edge_weight_key_id(e: &BytesStart) -> Result<Option<String>, Error> {
+    let attrs = get_attributes_as_hashmap(e)?;
+    let is_weight = attrs.get("attr.name").map(|v| v.as_str()) == Some("weight");
+    let is_for_edge = attrs.get("for").map(|v| v.as_str()) == Some("edge");
+    match (is_weight && is_for_edge, attrs.get("id")) {
+        (true, Some(id)) => Ok(Some(id.to_string())),
+        (true, None) => Err(get_read_error(
+            "a <key> element for the edge weight does not have an \"id\" attribute",
+        )),
+        (false, _) => Ok(None),
+    }
 }
 
 fn get_read_error(message: &str) -> Error {
